@@ -53,9 +53,21 @@ def solve_args(f):
 def bind_params(func, f):
     vals = solve_args(f)
     names = func.params[1:]
-    if len(names) != len(vals):
+    dfl = func.defaults()
+    extra = names[len(vals):]
+    if len(names) < len(vals) or any(n not in dfl for n in extra):
         raise AnalysisError("%s: expected %d parameters (f, condition, tsave, stop, flush, monitors, directives), found %s" % (func.qualname, len(vals), names))
-    return dict(zip(names, vals))
+    out = dict(zip(names, vals))
+    for n in extra:
+        # an optional parameter added since (a callback, a verbosity flag ...): the run the statement describes is
+        # the one with its default
+        d = dfl[n]
+        if isinstance(d, ast.Constant):
+            v = d.value
+            out[n] = Lin({}, Fraction(repr(v))) if isinstance(v, (int, float)) and not isinstance(v, bool) else v
+        else:
+            out[n] = Opq("default:" + n)
+    return out
 
 
 def save_index_name(fsolve):
